@@ -1,4 +1,5 @@
 import ArroyProofs.AuditCmd
 import ArroyProofs.Properties.C05
 import ArroyProofs.Properties.C05Build
+import ArroyProofs.Properties.Reachable
 #audit Arroy.C05
